@@ -311,6 +311,11 @@ class Check:
             self.violations.append(dict(key=m["key"], detail=m))
         if rep["mismatches_total"] > len(rep["mismatches"]):
             self.notes.append("%d mismatches in total, first %d kept" % (rep["mismatches_total"], len(rep["mismatches"])))
+        if rep.get("reference_drift"):
+            n = rep.get("counters", {}).get("reference_drift", len(rep["reference_drift"]))
+            log("[%s] NOTE: %d case(s) deviate from the reference specification without contradicting the property "
+                "(spec drift, not a violation); first: %s" % (self.prop, n, json.dumps(rep["reference_drift"][0])[:600]))
+            self.extra.setdefault("reference_drift_samples", []).extend(rep["reference_drift"][:3])
         c = self.extra.setdefault("replay_counters", {})
         for k, v in rep.get("counters", {}).items():
             c[k] = c.get(k, 0) + v
@@ -360,9 +365,10 @@ class Check:
         p = cases_file.replace(".ndjson", ".canary.ndjson")
         write_ndjson(p, picked)
         rep = vh_replay(prop_driver or self.prop, p, tag=".canary")
-        if rep["mismatches_total"] < len(picked):
+        noticed = rep["mismatches_total"] + rep.get("counters", {}).get("reference_drift", 0)
+        if noticed < len(picked):
             raise ToolError("canary: replay accepted %d altered case(s) — harness does not compare" %
-                            (len(picked) - rep["mismatches_total"]))
+                            (len(picked) - noticed))
         self.canaries += len(picked)
         log("[%s] canary: %d altered case(s) rejected by replay — binding demonstrated" % (self.prop, len(picked)))
 
